@@ -261,6 +261,11 @@ ContentMap(seq) == FoldLeft(LAMBDA acc, p : (p[1] :> p[2]) @@ acc, <<>>, seq)
 UpdateKinds == {"put", "del", "put_string", "del_string", "bulk_put", "bulk_put_string", "bulk_del", "bulk_del_string", "put_from_iter"}
 IsUpdate(e) == e.ev \in UpdateKinds
 
+\* the same formula (what was read back equals the contract state) instantiates several properties;
+\* the scenario says which one through the "as" field, which must be one of a fixed set
+ContentConjs == {"C02.content", "C03.snapshot", "C07.reopen", "C12.content", "C16.reported", "C16.recover", "C16.view", "C11.result"}
+AsConj(e, d) == IF Has(e, "as") THEN (IF e.as \in ContentConjs THEN e.as ELSE "TOOL.bad_conj") ELSE d
+
 \* outcome conjunct: a call on a healthy file system returns ok
 OutcomeFails(e) == IF e.outcome = "ok" \/ aux.fault THEN {} ELSE {"C01.outcome"}
 
@@ -302,9 +307,10 @@ Proc(e) ==
                         must_refuse == mt.foreign \/ mt.kt # e.kt
                     IN IF must_refuse
                        THEN [base EXCEPT !.fails = IF e.outcome \in {"err", "panic"} THEN {} ELSE {"C13.refused"}]
-                       ELSE IF e.outcome # "ok" THEN [base EXCEPT !.fails = OutcomeFails(e) \cup {"C02.open"}]
+                       ELSE IF ~known THEN [base EXCEPT !.meta = Set(meta, m, [mt EXCEPT !.open = (e.outcome = "ok")])]
+                       ELSE IF e.outcome # "ok" THEN [base EXCEPT !.fails = OutcomeFails(e) \cup {AsConj(e, "C02.content")}]
                        ELSE [base EXCEPT !.meta = Set(meta, m, [mt EXCEPT !.open = TRUE]),
-                                         !.fails = IF ~known \/ e.len = M!MLen(mm) THEN {} ELSE {"C02.len"}]
+                                         !.fails = IF e.len = M!MLen(mm) THEN {} ELSE {AsConj(e, "C02.content")}]
       [] e.ev \in {"put", "put_string"} ->
             IF ~known THEN base ELSE
             LET r == upd(M!MPut(mm, e.k, e.v), e.k) IN
@@ -339,17 +345,18 @@ Proc(e) ==
       [] e.ev = "dump" ->
             IF ~known THEN base ELSE
             [base EXCEPT !.fails = OutcomeFails(e) \cup
-                (IF e.outcome = "ok" /\ ContentMap(e.content) = mm /\ e.len = M!MLen(mm) THEN {} ELSE {"C02.content"})]
+                (IF e.outcome = "ok" /\ ContentMap(e.content) = mm /\ e.len = M!MLen(mm) THEN {} ELSE {AsConj(e, "C02.content")})]
       [] e.ev = "child_dump" ->
             \* a directory (or a snapshot copy of it) opened in a freshly spawned process
-            IF ~known THEN base ELSE
+            IF ~(m \in DOMAIN mem) THEN base ELSE
             IF meta[m].foreign \/ meta[m].kt # e.kt
             THEN [base EXCEPT !.fails = IF e.open \in {"err", "panic"} THEN {} ELSE {"C13.refused"}]
+            ELSE IF ~known THEN base
             ELSE [base EXCEPT !.fails =
-                    IF e.open # "ok" THEN {"C02.open"}
+                    IF e.open # "ok" THEN {AsConj(e, "C02.content")}
                     ELSE IF /\ ContentMap(e.content) = mm /\ e.len = M!MLen(mm)
                             /\ e.iter_outcome = "ok" /\ M!ItemsAreMap(e.items, mm)
-                         THEN {} ELSE {"C02.content"}]
+                         THEN {} ELSE {AsConj(e, "C02.content")}]
       [] e.ev \in {"flush", "sync_all", "sync_data"} ->
             IF ~(m \in DOMAIN mem) THEN base ELSE
             LET ok == e.outcome = "ok"
